@@ -33,6 +33,14 @@ class HarnessError(Exception):
     """The harness itself is broken (positive control failed, tool missing): exit code 2."""
 
 
+class JasmRaised(Exception):
+    """perform_matching() of the real code raised on an input for which the check expects a result."""
+
+    def __init__(self, exc, where):
+        super().__init__(f"{type(exc).__name__}: {exc}")
+        self.where = where
+
+
 # ----------------------------------------------------------------------------- scratch
 
 def scratch_root() -> str:
@@ -56,16 +64,21 @@ def fmt_line(addr: str, mnemonic: str, operands, *, indent=2, nbytes=3, annot=No
     return f"{' ' * indent}{addr}:\t{byts}\t{text}"
 
 
-def fmt_listing(insts, *, header=True, label=True) -> str:
-    """insts: iterable of (addr, mnemonic, [AT&T operands]) -> objdump -d style text."""
+def fmt_listing(insts, *, header=True, label=True, wrapped=False) -> str:
+    """insts: iterable of (addr, mnemonic, [AT&T operands]) -> objdump -d style text.
+    wrapped: print the first instruction as objdump prints a >7-byte instruction (7 bytes + a continuation line)."""
     lines = []
     if header:
         lines += ["", "a.out:     file format elf64-x86-64", "", "", "Disassembly of section .text:", ""]
     if label:
         first = insts[0][0] if insts else "0"
         lines.append(f"{int(first, 16):016x} <f>:")
-    for a, m, o in insts:
-        lines.append(fmt_line(a, m, o))
+    for k, (a, m, o) in enumerate(insts):
+        if wrapped and k == 0:
+            lines.append(fmt_line(a, m, o, nbytes=7))
+            lines.append(f"  {int(a, 16) + 7:x}:\t00 00 00 ")
+        else:
+            lines.append(fmt_line(a, m, o))
     return "\n".join(lines) + "\n"
 
 
@@ -103,9 +116,12 @@ class Harness:
 
     def write(self, name: str, text: str | bytes) -> str:
         p = self.path(name)
-        mode = "wb" if isinstance(text, bytes) else "w"
-        with open(p, mode) as f:
-            f.write(text)
+        if isinstance(text, bytes):
+            with open(p, "wb") as f:
+                f.write(text)
+        else:
+            with open(p, "w", encoding="utf-8", newline="") as f:   # independent of the locale the check runs under
+                f.write(text)
         return p
 
     def rule_file(self, doc, name: str | None = None) -> str:
@@ -140,18 +156,38 @@ class Harness:
     DECOY_LISTING = [("401000", "call", ["401030"]), ("401005", "jmp", ["401030"]), ("40100a", "mov", ["%rax", "%rbx"])]
     decoy_every = 1
 
+    # Failing decoys: operations that raise at different stages (config loading, macro resolution, $deref building,
+    # regex compilation after the input was consumed, missing input).  A failure must not leave anything behind.
+    FAILING_DECOYS = [
+        ({"config": {"mnemonics-full-match": True, "sections": "notalist"}, "pattern": ["mov"]}, True),
+        ({"macros": [{"name": "@z", "pattern": "x"}], "pattern": ["@nosuch"]}, True),
+        ({"pattern": [{"mov": [{"$deref": {"main_reg": "&indreg-9.8H"}}]}]}, True),
+        ({"config": {"operands-full-match": True}, "pattern": [{"mov": ["(%rbx"]}]}, True),
+        ({"config": {"valid_addr_range": {"min": "0", "max": "ffffffffffffffff"}}, "pattern": ["call"]}, False),  # input missing
+    ]
+
     def _decoy(self):
         self._decoys = getattr(self, "_decoys", 0) + 1
         if not self.decoy_every or self._decoys % self.decoy_every:
             return
         gd = self.gd
-        rp = self.write(f"decoy_{os.getpid()}.yaml", yaml.safe_dump(self.DECOY_RULE, sort_keys=False))
         lp = self.listing_file(fmt_listing(self.DECOY_LISTING))
+        # 1. one failing operation (round robin); its exception is expected and swallowed
+        doc, has_input = self.FAILING_DECOYS[(self._decoys // max(1, self.decoy_every)) % len(self.FAILING_DECOYS)]
+        fp = self.write(f"decoyfail_{os.getpid()}.yaml", yaml.safe_dump(doc, sort_keys=False))
+        try:
+            self.MasterOfPuppets(gd.MatchConfig(pattern_pathstr=fp, input_file=lp if has_input else self.path("nosuchinput.s"),
+                                                return_mode=gd.MatchingReturnMode.matched_addrs_list,
+                                                matching_mode=gd.MatchingSearchMode.all_finds)).perform_matching()
+        except Exception:  # noqa
+            pass
+        # 2. the polluting operation
+        rp = self.write(f"decoy_{os.getpid()}.yaml", yaml.safe_dump(self.DECOY_RULE, sort_keys=False))
         cfg = gd.MatchConfig(pattern_pathstr=rp, input_file=lp, return_mode=gd.MatchingReturnMode.matched_addrs_list,
                              matching_mode=gd.MatchingSearchMode.all_finds)
-        got = self.MasterOfPuppets(cfg).perform_matching()
-        if got != ["401000::call,valid_addr,|401005::jmp,valid_addr,|"]:
-            # the decoy itself misbehaves (e.g. under a seeded change): not a verdict of this check, carry on
+        try:
+            self.MasterOfPuppets(cfg).perform_matching()
+        except Exception:  # noqa  (the decoy itself misbehaving under a seeded change is not a verdict of this check)
             pass
 
     def mop(self, rule_doc, *, macros=None, input_file="", binary=False, rule_path=None):
@@ -177,7 +213,11 @@ class Harness:
                          "stream": gd.MatchingReturnMode.all_instructions_string}[ret]
         c.matching_mode = gd.MatchingSearchMode.all_finds if mode == "all" else gd.MatchingSearchMode.first_find
         c.return_only_address = only_addr
-        return mop.perform_matching()
+        try:
+            return mop.perform_matching()
+        except Exception as e:  # noqa
+            raise JasmRaised(e, {"input_file": input_file, "ret": ret, "mode": mode, "only_addr": only_addr,
+                                 "rule_file": c.pattern_pathstr}) from e
 
 
 def make_rule_doc(pattern, config=None, macros=None):
@@ -238,7 +278,7 @@ class ShardResult:
 
     def fail(self, case: dict, known_keys: set):
         """case must contain 'clause' and everything needed to replay."""
-        key = case_key({k: v for k, v in case.items() if k not in ("observed", "expected", "note")})
+        key = case_key({k: v for k, v in case.items() if k not in ("observed", "expected", "note", "listing_text")})
         case["key"] = key
         self.fail_keys.append((key, case["clause"], case.get("family", "")))
         if key not in known_keys and len(self.fail_details) < 40:
@@ -260,6 +300,16 @@ def _worker_entry(args):
         mod.run_shard(shard, tier, h, res, known_keys)
     except HarnessError as e:
         res.error = f"HARNESS: {e}"
+    except JasmRaised as e:
+        # the real code raised where a result was expected and the check had no dedicated handler: still a verdict
+        w = dict(e.where)
+        for k in ("input_file", "rule_file"):
+            try:
+                w[k + "_content"] = open(w[k], newline="").read()[:4000]
+            except Exception:  # noqa
+                pass
+        res.fail({"clause": "raises", "family": "uncaught", "where": {k: v for k, v in w.items() if not k.endswith("_file")},
+                  "expected": "a result", "observed": str(e), "size": 0}, known_keys)
     except Exception:  # a crash in harness code is a harness error, not a verdict
         res.error = "HARNESS: " + traceback.format_exc()
     return res
